@@ -109,7 +109,7 @@ def aggregate(summaries):
         for r in s["results"]:
             name = r["name"]
             o = obl.setdefault(name, {"status": "discharged", "queries": 0, "time": 0.0, "solvers": set(), "witness": None,
-                                      "task": s["task"], "twin": False, "kf": None, "bounded": s.get("bounded")})
+                                      "task": s["task"], "twin": bool(s.get("twin")), "kf": None, "bounded": s.get("bounded")})
             o["queries"] += 1
             o["time"] += r["time"]
             o["solvers"].add(r["solver"] if r["status"] != "trivial" else "syntactic")
@@ -235,7 +235,7 @@ def report(prop, tier, seed, mod, summaries, t0, verbose=False, partial=False):
                     engine_problems.append(f"{s['task']}: must-fail twin '{s['twin']}' was NOT refuted (engine unsound or vacuous)")
                 else:
                     twins_ok += 1
-    real = {n: o for n, o in obl.items() if n not in twin_names}
+    real = {n: o for n, o in obl.items() if n not in twin_names and not o["twin"]}
     # ---- known findings bookkeeping
     kf_lines = []
     kf_repro = {n[len("kf-repro:"):]: o for n, o in real.items() if n.startswith("kf-repro:")}
